@@ -347,6 +347,28 @@ class Engine:
             return self.ev(body[0].value, p, nfr)
         return None
 
+    def _is_boolish(self, e, fr):
+        """expression whose value is a bool (so `a and b` returns exactly True/False)"""
+        if isinstance(e, ast.Compare) or (isinstance(e, ast.UnaryOp) and isinstance(e.op, ast.Not)):
+            return True
+        if isinstance(e, ast.Constant):
+            return isinstance(e.value, bool)
+        if isinstance(e, ast.BoolOp):
+            return all(self._is_boolish(v, fr) for v in e.values)
+        callee = None
+        if isinstance(e, ast.Call) and isinstance(e.func, ast.Attribute) and isinstance(e.func.value, ast.Name) and e.func.value.id == "self" and fr["fn"].cls:
+            callee = self.M.find_method((fr["fn"].mod, fr["fn"].cls), e.func.attr)
+        elif isinstance(e, ast.Call) and isinstance(e.func, ast.Name):
+            callee = self.M.funcs.get(f"{fr['fn'].mod}.{e.func.id}")
+            if e.func.id in ("isinstance", "hasattr", "bool", "callable"):
+                return True
+        elif isinstance(e, ast.Attribute) and isinstance(e.value, ast.Name) and e.value.id == "self" and fr["fn"].cls:
+            m = self.M.find_method((fr["fn"].mod, fr["fn"].cls), e.attr)
+            callee = m if m is not None and m.kind == "property" else None
+        if callee is not None and callee.node.returns is not None:
+            return ast.unparse(callee.node.returns) == "bool"
+        return False
+
     def fork_or_memo(self, e, callee, p, fr):
         key = ("memo", id(e))
         if key in p.store:
@@ -572,6 +594,16 @@ class Engine:
                 else:
                     s2 = ast.AnnAssign(target=s.target, annotation=s.annotation, value=val, simple=s.simple)
                 ast.copy_location(s2, s)
+                for q in qs:
+                    out.extend(self.stmt(s2, q, fr) if q.status == "run" else [q])
+            return out
+        if self.split_ifexp and isinstance(s, (ast.Return, ast.Assign)) and isinstance(s.value, ast.BoolOp) and all(self._is_boolish(v, fr) for v in s.value.values):
+            t, f = self.cond(s.value, p, fr)
+            out = []
+            for qs, val in ((t, True), (f, False)):
+                s2 = ast.Return(value=ast.Constant(value=val)) if isinstance(s, ast.Return) else ast.Assign(targets=s.targets, value=ast.Constant(value=val))
+                ast.copy_location(s2, s)
+                ast.fix_missing_locations(s2)
                 for q in qs:
                     out.extend(self.stmt(s2, q, fr) if q.status == "run" else [q])
             return out
